@@ -657,6 +657,29 @@ fn model_table_call(ctx: &mut Ctx, ast: &str, input: &[u8]) -> Result<String, St
     }
 }
 
+/// F-level for a run with a frame after every row: the model predicts every frame — the model's
+/// table (`RUN`) of prefix k, through the model's printer with its width memory (`TABLE`) — and the
+/// frames must be the very text written.  None = agree.
+fn agg_f_level(ctx: &mut Ctx, query: &str, input: &[u8], line_starts: &[usize], rows: usize, w: u16, h: u16, frames: &[String]) -> Option<(String, serde_json::Value)> {
+    let ast = imp::parse(query).ok().and_then(|p| p.0).map(|q| enc::query(&q))?;
+    let mut calls: Vec<String> = vec![];
+    for k in (1..=rows).chain(std::iter::once(rows)) {
+        match model_table_call(ctx, &ast, &input[..line_starts[k]]) {
+            Ok(c) => calls.push(c),
+            Err(e) => return Some(("skip".into(), serde_json::json!({"why": format!("model: {}", e.split(' ').take(6).collect::<Vec<_>>().join(" "))}))),
+        }
+    }
+    let ans = ctx.drv.ask(&format!("TABLE\t{} {}\t4 8\t{}", w, h, calls.join("\t")));
+    let model_frames: Vec<String> = ans.split(' ').filter_map(|t| t.strip_prefix('T').map(|hx| String::from_utf8_lossy(&enc::unhex(hx)).into_owned())).collect();
+    if !ans.starts_with("OK") || model_frames.len() != frames.len() {
+        return Some(("fdis".into(), serde_json::json!({"what": format!("model printer answered {}", c19::clip(&ans, 200))})));
+    }
+    if let Some(i) = (0..frames.len()).find(|i| frames[*i] != model_frames[*i]) {
+        return Some(("fdis".into(), serde_json::json!({"what": format!("frame {} (after {} rows) differs from the model's frame", i, (i + 1).min(rows)), "impl_frame": frames[i], "model_frame": model_frames[i]})));
+    }
+    None
+}
+
 fn agg_of_agg(ctx: &mut Ctx, idx: usize, r: &mut Rng) {
     let query = AGG_OF_AGG[r.below(AGG_OF_AGG.len())];
     let rows = 4 + r.below(22);
@@ -686,6 +709,14 @@ fn agg_of_agg(ctx: &mut Ctx, idx: usize, r: &mut Rng) {
     }
     let text = String::from_utf8_lossy(&tty.bytes).into_owned();
     let frames = split_frames(&text);
+    // AGVERIF_F_FIRST=1: judge the model side before the oracles (what would the F-level alone say?)
+    if std::env::var("AGVERIF_F_FIRST").is_ok() && every && frames.len() == rows + 1 {
+        if let Some((verdict, mut payload)) = agg_f_level(ctx, query, &input, &line_starts, rows, w, h, &frames) {
+            payload["case"] = info;
+            ctx.case(family, if verdict == "skip" { "" } else { &key }, &verdict, payload);
+            return;
+        }
+    }
     // the table of every prefix of the input, as a non-terminal run prints it
     let mut prefix_tables: Vec<String> = vec![];
     for k in 0..=rows {
@@ -728,36 +759,12 @@ fn agg_of_agg(ctx: &mut Ctx, idx: usize, r: &mut Rng) {
             return;
         }
     }
-    // F-level: with a frame after every row the model predicts every frame: the model's table
-    // (`RUN`) of prefix k, through the model's printer with its width memory (`TABLE`), through the
-    // model's renderer (`TERMR`) must give the very bytes written.
+    // F-level (see `agg_f_level`)
     if every && frames.len() == rows + 1 {
-        if let Some(ast) = imp::parse(query).ok().and_then(|p| p.0).map(|q| enc::query(&q)) {
-            let mut calls: Vec<String> = vec![];
-            let mut skipped: Option<String> = None;
-            for k in (1..=rows).chain(std::iter::once(rows)) {
-                match model_table_call(ctx, &ast, &input[..line_starts[k]]) {
-                    Ok(c) => calls.push(c),
-                    Err(e) => {
-                        skipped = Some(e);
-                        break;
-                    }
-                }
-            }
-            if let Some(e) = skipped {
-                ctx.case(family, "", "skip", serde_json::json!({"why": format!("model: {}", e.split(' ').take(6).collect::<Vec<_>>().join(" ")), "case": info}));
-                return;
-            }
-            let ans = ctx.drv.ask(&format!("TABLE\t{} {}\t4 8\t{}", w, h, calls.join("\t")));
-            let model_frames: Vec<String> = ans.split(' ').filter_map(|t| t.strip_prefix('T').filter(|_| t.len() > 1 || t == "T").map(|hx| String::from_utf8_lossy(&enc::unhex(hx)).into_owned())).collect();
-            if !ans.starts_with("OK") || model_frames.len() != frames.len() {
-                ctx.case(family, &key, "fdis", serde_json::json!({"what": format!("model printer answered {}", c19::clip(&ans, 200)), "case": info}));
-                return;
-            }
-            if let Some(i) = (0..frames.len()).find(|i| frames[*i] != model_frames[*i]) {
-                ctx.case(family, &key, "fdis", serde_json::json!({"what": format!("frame {} (after {} rows) differs from the model's frame", i, (i + 1).min(rows)), "impl_frame": frames[i], "model_frame": model_frames[i], "case": info}));
-                return;
-            }
+        if let Some((verdict, mut payload)) = agg_f_level(ctx, query, &input, &line_starts, rows, w, h, &frames) {
+            payload["case"] = info;
+            ctx.case(family, if verdict == "skip" { "" } else { &key }, &verdict, payload);
+            return;
         }
     }
     ctx.case(family, &key, "pass", serde_json::json!({"query": query, "size": [w, h], "rows": rows, "frames": frames.len(), "refresh_density": density, "idle_pauses": pauses.len()}));
